@@ -152,7 +152,9 @@ def rng_array(u, w, f):
     if form == 0:
         # range over an array value iterates over a copy
         w.open("for %s, %s := range %s {" % (i, v, arr))
-        w("%s[(%s+1)%%%d] += %s" % (arr, i, n, c(u, t, 1, 9)))
+        if "rangearr" not in u.avoid:
+            w("%s[(%s+1)%%%d] += %s" % (arr, i, n, c(u, t, 1, 9)))
+            u.feat("range-array-write-during-loop")
         w(u.tr(i, as_int(v, t)))
         w.close()
     elif form == 1:
@@ -334,9 +336,9 @@ def rng_func(u, w, f):
     t = f.pick_kind()
     seq = u.nm("Seq")
     L = u.lib
-    form = r.randrange(6)
+    form = r.randrange(7)
     u.feat("range-func%d" % form)
-    if form in (0, 1, 4, 5):
+    if form in (0, 1, 4, 5, 6):
         L.open("func %s(n %s) func(func(%s) bool) {" % (seq, t, t))
         L.open("return func(yield func(%s) bool) {" % t)
         L.open("for i := %s(0); i < n; i++ {" % t)
@@ -437,6 +439,31 @@ def rng_func(u, w, f):
             a, ok = u.lv("r"), u.lv("ok")
             w("%s, %s := %s(%s)" % (a, ok, h, lim))
             w(u.tr(a, "¤Bi(%s)" % ok))
+    elif form == 6:
+        # panic raised inside the loop body, recovered by a function-level deferred literal of the enclosing function
+        # (go1.24.0 mishandles this: the program is also built with go1.26 and the unit dropped when the references disagree)
+        u.needs_go126 = True
+        h = u.nm("Guard")
+        B = W()
+        B.open("func %s(lim %s) (cls string) {" % (h, t))
+        B.open("defer func() {")
+        B.open("if r := recover(); r != nil {")
+        B("cls = ¤Cls(r)")
+        B.close()
+        B.close("}()")
+        B.open("for e := range §%s(lim) {" % seq)
+        B.open("if e >= %s {" % c(u, t, 2, 6))
+        B("panic(\"in-body\")")
+        B.close()
+        B("¤Tr(%d, \"body\", int(e))" % u.uid)
+        B.close()
+        B("return \"done\"")
+        B.close()
+        u.body.lines = B.lines + [""] + u.body.lines
+        for lim in (c(u, t, 0, 1), c(u, t, 4, 9)):
+            s_ = u.lv("s")
+            w("%s := %s(%s)" % (s_, h, lim))
+            w(u.ts(s_))
     else:
         # closures capturing the per-iteration variable of a range-over-func loop
         fs = u.lv("fs")
